@@ -77,6 +77,15 @@ def andThen (r : M (Frame × Sig)) (k : Frame → Bool) : Bool :=
   | .ok (s1, .norm) => k s1
   | _ => true
 
+/-- a loop over the tab stops (`tabLoop`): the body is checked at every tab stop actually visited, in the frame it is run in -/
+def rangeTabLoop (chk : Frame → Bool) (run : Frame → M (Frame × Sig)) : List Int → Frame → Bool
+  | [], _ => true
+  | t :: rest, s =>
+    chk { s with tab := t } &&
+      (match run { s with tab := t } with
+       | .ok (s2, sg) => if sg = .brk ∨ sg = .ret then true else rangeTabLoop chk run rest { s2 with tab := s.tab }
+       | .error _ => true)
+
 /-- statements at function level: follows the execution -/
 def rangeS (pm : List Param) : Stmt → Frame → Bool
   | .seq a b, s =>
@@ -102,8 +111,8 @@ def rangeS (pm : List Param) : Stmt → Frame → Bool
   | .tabsStore, _ => true
   | .tabsClear, _ => true
   | .tabsPushCol, _ => true
-  | .forTabs _, _ => false        -- not analysed
-  | .forTabsDown _, _ => false    -- not analysed
+  | .forTabs body, s => rangeTabLoop (fun s => rangeS pm body s) (fun s => evalS pm body s) s.e.tabs s
+  | .forTabsDown body, s => rangeTabLoop (fun s => rangeS pm body s) (fun s => evalS pm body s) s.e.tabs.reverse s
   | .forS _ _ _ _, _ => false     -- not analysed (round 3: function-level loops, sgr, osc, modes)
   | .forSgr _, _ => false
   | .forParams _, _ => false
